@@ -971,24 +971,26 @@ theorem T_ping {c : List NodeCfg} (hg : GoodCfg c) (fuel : Nat) (hb : fuelBound 
   · exact hT
   · split
     · exact hT
-    · simp only
-      have hfold := foldl_inv (fun (acc : St × Bool) => T c acc.1)
-        (fun (acc : St × Bool) (_ : Nat) =>
-          if !acc.2 then acc else
-          match (resolveOut fuel acc.1 n target).2 with
-          | none => ((resolveOut fuel acc.1 n target).1, false)
-          | some _ => (sendIcmp fuel (resolveOut fuel acc.1 n target).1 n target (.echoReq st.nextId), true))
-        (by
-          intro a _ ha
-          split
-          · exact ha
-          · split
-            · exact ih.out _ _ _ ha (by omega)
-            · exact ih.icmp .e _ _ _ _ (ih.out _ _ _ ha (by omega)) (Or.inr ⟨rfl, trivial⟩) (by bud))
-        (List.range pings) ({ st with nextId := st.nextId + 1 }, true) (hT.nextId _)
-      split
-      · exact hfold
-      · exact hfold
+    · split
+      · exact hT
+      · simp only
+        have hfold := foldl_inv (fun (acc : St × Bool) => T c acc.1)
+          (fun (acc : St × Bool) (_ : Nat) =>
+            if !acc.2 then acc else
+            match (resolveOut fuel acc.1 n target).2 with
+            | none => ((resolveOut fuel acc.1 n target).1, false)
+            | some _ => (sendIcmp fuel (resolveOut fuel acc.1 n target).1 n target (.echoReq st.nextId), true))
+          (by
+            intro a _ ha
+            split
+            · exact ha
+            · split
+              · exact ih.out _ _ _ ha (by omega)
+              · exact ih.icmp .e _ _ _ _ (ih.out _ _ _ ha (by omega)) (Or.inr ⟨rfl, trivial⟩) (by bud))
+          (List.range pings) ({ st with nextId := st.nextId + 1 }, true) (hT.nextId _)
+        split
+        · exact hfold
+        · exact hfold
 
 theorem T_requestService {c : List NodeCfg} (hg : GoodCfg c) (fuel : Nat) (hb : fuelBound ≤ fuel) (st : St) (n : Nat) (server : Ip)
     (hT : T c st) : T c (requestService fuel st n server).1 := by
